@@ -1622,7 +1622,10 @@ def predicted(name, args, extra):
     try:
         if name == "Pow" and is_const(args[0]) and is_const(args[1]):
             try:
-                val = py_value(args[0]) ** py_value(args[1])
+                bv_, ev_ = py_value(args[0]), py_value(args[1])
+                if type(bv_) is int and type(ev_) is int and ev_ < 0:
+                    bv_ = Fraction(bv_)          # /repo b167bb1: exact rational instead of a float
+                val = bv_ ** ev_
             except (TypeError, ZeroDivisionError, OverflowError, ValueError) as e:
                 raise Reject("Pow: python arithmetic raised " + type(e).__name__)
             return ("tree", model_real(val))
@@ -1784,13 +1787,19 @@ def hole_shape(o, p, ss, hole):
     return hole
 
 
+class Chk(tuple):
+    """(typeOf, wt, sortOf, noF06, rotInRange) + the real checker's rule on raw nodes (pyNode)"""
+
+
 def parse_chk(ans):
-    """driver `chk` answer -> (typeOf, wt, sortOf, noF06, rotInRange)"""
+    """driver `chk` answer -> Chk(typeOf, wt, sortOf, noF06, rotInRange) with .raw_ty/.raw_wt/.arity_ok"""
     parts = [x.strip() for x in ans.split("|")]
-    if len(parts) != 5:
+    if len(parts) != 8:
         raise ValueError(ans)
-    return (dec_sort_answer(parts[0]), parts[1] == "true", dec_sort_answer(parts[2]), parts[3] == "true",
-            parts[4] == "true")
+    c = Chk((dec_sort_answer(parts[0]), parts[1] == "true", dec_sort_answer(parts[2]), parts[3] == "true",
+             parts[4] == "true"))
+    c.raw_ty, c.raw_wt, c.arity_ok = dec_sort_answer(parts[5]), parts[6] == "true", parts[7] == "true"
+    return c
 
 
 class Judge:
@@ -1839,6 +1848,9 @@ class Judge:
                          {"grid": what, "request": line, "term": show_raw(raw)})
         if wt and nof06 and so != ty:
             ctx.report_k("instance of typeOf_sound_partial fails on %s" % show_raw(raw),
+                         {"grid": what, "request": line, "term": show_raw(raw)})
+        if chk.arity_ok and ((wt != chk.raw_wt) or (wt and ty != chk.raw_ty)):
+            ctx.report_k("instance of raw_of_wt / wt_of_raw (boundary theorem) fails on %s" % show_raw(raw),
                          {"grid": what, "request": line, "term": show_raw(raw)})
         if so is not None and rot and not (wt and ty == so):
             ctx.report_k("instance of typeOf_complete_partial fails on %s" % show_raw(raw),
@@ -1928,16 +1940,22 @@ def judge_grid_a(ctx, judge, results):
                 return
             ty, wt, so, nof06, rot = chk
             judge.spec_checks(raw, chk, line, "A")
-            lean_ok = wt and ty is not None
-            if lean_ok == impl_ok and (not impl_ok or ty == canon_sort(impl_ty)):
+            # K, exact on every raw call: the real checker against pyNode (typeOfRaw / wtRaw)
+            lean_ok = chk.raw_wt and chk.raw_ty is not None
+            if not (lean_ok == impl_ok and (not impl_ok or chk.raw_ty == canon_sort(impl_ty))):
+                rep = dict(replay, request=line, lean="raw %r wt=%s" % (chk.raw_ty, chk.raw_wt))
+                ctx.report_k("create_node(%s) on (%s) payload %s: implementation %r, model typeOfRaw=%r wtRaw=%s"
+                             % (o, sorts_key(ss), payload_key(p), (impl_ok, impl_ty), chk.raw_ty, chk.raw_wt), rep)
                 return
-            b = model_boundary(o, p, len(ss), impl_ok, lean_ok)
-            if b is not None:
-                ctx.count("A_model_boundary_" + b)
-                return
-            rep = dict(replay, request=line, lean="%r wt=%s" % (ty, wt))
-            ctx.report_k("create_node(%s) on (%s) payload %s: implementation %r, model typeOf=%r wt=%s"
-                         % (o, sorts_key(ss), payload_key(p), (impl_ok, impl_ty), ty, wt), rep)
+            # where typeOf (Core) differs from the real rule: only off the operator's arity (boundary theorem)
+            core_ok = wt and ty is not None
+            if core_ok != lean_ok or (core_ok and ty != chk.raw_ty):
+                b = model_boundary(o, p, len(ss), impl_ok, core_ok)
+                if b is None or chk.arity_ok:
+                    ctx.report_k("typeOf differs from the real rule on a node of the operator's arity: %s" % show_raw(raw),
+                                 dict(replay, request=line))
+                else:
+                    ctx.count("A_typeOf_differs_off_arity_" + b)
         if not judge.ask(raw, cont):
             ctx.count("A_k_skipped_not_encodable")
 
